@@ -126,3 +126,19 @@ def render(e) -> str:
 def _paren(e, ops):
     s = render(e)
     return "(" + s + ")" if e["op"] in ops else s
+
+
+def words_table(strings, extra=()):
+    """Input.words for spec/PMExprSyntax.tla: every word (maximal run of word characters) of the given
+    strings with its code points - a pure encoding table (TLA+ strings cannot be taken apart in TLC);
+    the lexing and parsing are done by the specification."""
+    seen = {}
+    for s in list(strings) + list(extra):
+        for w in re.findall(r"\w+", s):
+            if w not in seen:
+                seen[w] = {"cs": [ord(c) for c in w], "s": w}
+    return list(seen.values())
+
+
+def chars(s):
+    return [ord(c) for c in s]
